@@ -118,3 +118,81 @@ def c05(case):
     except Exception as e:  # noqa
         return _exc(e)
     raise ValueError(flavour)
+
+
+# ---------------------------------------------------------------------------
+# C12: the standard Twp/Rge/Sec form
+
+def _chars(s):
+    return list(s) if isinstance(s, str) else ["?"]
+
+
+def _tr_attr(num, d, undef, s):
+    if num is not None and isinstance(num, int) and not isinstance(num, bool):
+        k = "num"
+    elif undef:
+        k = "undef"
+    else:
+        k = "err"
+    return {"k": k, "n": num if k == "num" else 0, "d": d if (k == "num" and isinstance(d, str)) else "-",
+            "s": _chars(s)}
+
+
+def trs_attrs_from_obj(o):
+    return {"twp": _tr_attr(o.twp_num, o.twp_ns, o.twp_undef, o.twp),
+            "rge": _tr_attr(o.rge_num, o.rge_ew, o.rge_undef, o.rge),
+            "sec": _tr_attr(o.sec_num, None, o.sec_undef, o.sec),
+            "twprge": _chars(o.twprge)}
+
+
+def trs_attrs_from_dict(d):
+    return {"twp": _tr_attr(d["twp_num"], d["twp_ns"], d["twp_undef"], d["twp"]),
+            "rge": _tr_attr(d["rge_num"], d["rge_ew"], d["rge_undef"], d["rge"]),
+            "sec": _tr_attr(d["sec_num"], None, d["sec_undef"], d["sec"]),
+            "twprge": _chars(str(d["twp"]) + str(d["rge"]))}
+
+
+def c12(case):
+    import pytrs
+    a = case["args"]
+    ch = a["channel"]
+    try:
+        if a["mode"] == "build":
+            kw = {}
+            if a.get("dns"):
+                kw["default_ns"] = a["dns"]
+            if a.get("dew"):
+                kw["default_ew"] = a["dew"]
+            if ch == "TRS.from_twprgesec":
+                o = pytrs.TRS.from_twprgesec(a["twp"], a["rge"], a["sec"], **kw)
+            elif ch == "TRS.set_twprgesec":
+                o = pytrs.TRS()
+                o.set_twprgesec(a["twp"], a["rge"], a["sec"], **kw)
+            elif ch == "Tract.from_twprgesec":
+                cfg = ",".join(x for x in (a.get("dns"), a.get("dew")) if x) or None
+                o = pytrs.Tract.from_twprgesec("NE/4", a["twp"], a["rge"], a["sec"], config=cfg)
+            else:  # Tract.set_twprgesec
+                o = pytrs.Tract("NE/4")
+                o.set_twprgesec(a["twp"], a["rge"], a["sec"], **kw)
+            out = o.trs
+            attrs = trs_attrs_from_obj(o)
+        else:
+            s = a["s"]
+            if ch == "TRS":
+                o = pytrs.TRS(s)
+                out, attrs = o.trs, trs_attrs_from_obj(o)
+            elif ch == "Tract":
+                o = pytrs.Tract("NE/4", trs=s)
+                out, attrs = o.trs, trs_attrs_from_obj(o)
+            elif ch == "trs_to_dict":
+                d = pytrs.trs_to_dict(s)
+                out, attrs = d["trs"], trs_attrs_from_dict(d)
+            else:  # TRS.trs setter on an existing object
+                o = pytrs.TRS("154n97w14")
+                o.trs = s
+                out, attrs = o.trs, trs_attrs_from_obj(o)
+        x, y = pytrs.TRS(out), pytrs.TRS(str(out))
+        eq = (x == y) and (hash(x) == hash(y)) and (x == pytrs.TRS(x)) and not (x != y)
+        return {"exc": "none", "out": out, "rewrap": x.trs, "eq": bool(eq), "attrs": attrs}
+    except Exception as e:  # noqa
+        return _exc(e)
